@@ -8,7 +8,7 @@ for d in sorted(glob.glob("/verif/seeded/*/meta.json")):
     m = json.load(open(d))
     runs = m.get("checks_run_against_it", [])
     caught = sorted({r["check"] for r in runs if r.get("caught")})
-    missed = sorted({r["check"] for r in runs if not r.get("caught") and r["check"] == m["property"]} - set())
+    missed = sorted({r["check"] for r in runs if not r.get("caught") and r["check"] == m["property"]} | set(m.get("first_run_missed_by", [])))
     # a check that missed first and caught after strengthening appears in both
     fr = os.path.join(os.path.dirname(d), "final_run.json")
     fin = "—"
